@@ -384,6 +384,7 @@ func (e *Engine) registerIntrinsics() {
 	registerJSONIntrinsics(e)
 	registerK8sIntrinsics(e)
 	registerNatives(e)
+	registerCEL(e)
 }
 
 func sameRef(a, b value) bool {
@@ -708,7 +709,7 @@ func (i *interpreter) format(f value, args []value, wrapped *[]value) (res value
 	defer func() {
 		if r := recover(); r != nil {
 			if _, ok := r.(symbolicInFormat); ok {
-				res = opaqueStr{hint: fs}
+				res = opaqueStr{hint: fs, nonEmpty: formatHasLiteral(fs)}
 				return
 			}
 			panic(r)
@@ -757,7 +758,7 @@ func (i *interpreter) format(f value, args []value, wrapped *[]value) (res value
 					out = append(out, strCase{tAnd(c.g, d.g), d.s})
 				}
 			default:
-				return opaqueStr{hint: fs}
+				return opaqueStr{hint: fs, nonEmpty: formatHasLiteral(fs)}
 			}
 		}
 		return symStr{cases: out}
